@@ -236,11 +236,11 @@ class Model:
                     continue
                 if how == 'overwrite':
                     if k not in pv:
-                        return None, 'unspec'
+                        return RAISE, 'spec'       # nothing to take over: refused, and a refused call changes nothing
                     new[k] = pv[k]
                 elif how == 'combine':
                     if k not in pv:
-                        return None, 'unspec'
+                        return RAISE, 'spec'
                     new[k] = [pu[k], pv[k]]
                 elif how != 'discard':
                     return None, 'unspec'
